@@ -368,7 +368,7 @@ func init() {
 				return []batch.Variant{{Name: fmt.Sprintf("combo%02d", a), Flags: c04Flags(a, g)}, {Name: fmt.Sprintf("combo%02d", b), Flags: c04Flags(b, g)}}
 			},
 			Post: c04Post, CompileFailIsFailure: true,
-			Rule: "grammars from profiles names (rule names A/A1/A11, Unicode letters, Go keywords and predeclared identifiers, _x; labels cur1/stack2/..), codeblocks, stateful, throwrecover and left-recursive ones, plus one grammar with a rule for EVERY Unicode class name unicode_classes.go accepts; round-robin over all 64 combinations of -optimize-parser -optimize-grammar -optimize-basic-latin -support-left-recursion -nolint -cache (two per grammar) x receiver names {c,p,cur,stack,ctx,r}; validity predicate per generated file: pigeon accepts the grammar, output == gofmt(output), it compiles in the batch, go vet is silent, package init does not panic (the batch binary starts and parses), and - without -optimize-grammar - the methods on *current are exactly one per code block with exactly the labels of its scope as parameters (go source inspection); the parses themselves run the C02 trace comparison (labels received at run time). Non-trivial = >=2 code-block events, one at offset>0; evaluations counts parses; c04_static_checks counts files formatted/vetted/inspected.",
+			Rule:        "grammars from profiles names (rule names A/A1/A11, Unicode letters, Go keywords and predeclared identifiers, _x; labels cur1/stack2/..), codeblocks, stateful, throwrecover and left-recursive ones, plus one grammar with a rule for EVERY Unicode class name unicode_classes.go accepts; round-robin over all 64 combinations of -optimize-parser -optimize-grammar -optimize-basic-latin -support-left-recursion -nolint -cache (two per grammar) x receiver names {c,p,cur,stack,ctx,r}; validity predicate per generated file: pigeon accepts the grammar, output == gofmt(output), it compiles in the batch, go vet is silent, package init does not panic (the batch binary starts and parses), and - without -optimize-grammar - the methods on *current are exactly one per code block with exactly the labels of its scope as parameters (go source inspection); the parses themselves run the C02 trace comparison (labels received at run time). Non-trivial = >=2 code-block events, one at offset>0; evaluations counts parses; c04_static_checks counts files formatted/vetted/inspected.",
 			Assumptions: commonAssumptions,
 		})
 	})
